@@ -24,6 +24,7 @@ RULE = (
     "disjoint from (and sharing no spectrum with) the rows the same model later scored, cap respected, returned "
     "score = (affine image of) the recorded output of the row's fold model. Non-trivial = spectra with "
     "multiplicity >= 2 and (>= 2 key columns or >= 2 files) and the run produced final scores; distinct = case parameters."
+    " split: OnDiskPsmDataset._split driven directly on small and skewed tables (one spectrum holding up to half of the PSMs, folds 2..7, as few spectra as folds): a returned split is a partition into the requested number of folds and spectrum-closed; a refused table is counted."
 )
 ASSUMPTIONS = [
     "judged domain: >= 20 spectra per fold; skewed tables are out-of-domain probes",
@@ -53,10 +54,14 @@ def plan(seed, tier):
             "big": bool(tier == "thorough" and i % 40 == 7),
             "cost": 3,
         })
+    # the fold split itself, driven directly on many small and skewed tables (one spectrum holding a large share of the
+    # PSMs, few spectra, more folds than usual): a split that is returned must be spectrum-closed
+    for i in range(8 if tier == "quick" else 200):
+        cases.append({"class": "split", "index": i, "reps": 60, "cost": 3})
     return cases
 
 
-MANDATORY_CLASSES = ["brew"]
+MANDATORY_CLASSES = ["brew", "split"]
 
 
 def build(case, rng, d):
@@ -114,7 +119,63 @@ def check_scores(res, out, tabs, log, extra):
         res.count("score_rows_compared", sum(len(v) for v in by_uid.values()))
 
 
+def run_split(case):
+    rng = core.seed_seq(case["seed"], "C02", "split", case["index"])
+    res = Result(case)
+    evals = nt = 0
+    with core.scratch("c02s") as d:
+        for rep in range(case["reps"]):
+            folds = int(rng.integers(2, 8))
+            nsp = int(rng.choice([folds, folds + 1, 2 * folds, 12, 40, 150]))
+            skew = bool(rng.random() < 0.6)
+            keys = KEYSETS[int(rng.integers(0, len(KEYSETS)))]
+            tab = psm.psm_table(rng, n_spectra=nsp, mult_max=int(rng.integers(1, 5)), n_files=2 if "filename" in keys else 1,
+                                key_cols=tuple(keys), skew=skew, share_scan=float(rng.choice([0.0, 0.5])), n_noise=1)
+            p = psm.write_pin(tab, d / f"s{rep}.pin")
+            ds = pipeline.read_datasets([p])[0]
+            c = core.Call(ds._split, folds, np.random.default_rng(int(rng.integers(1 << 30))))
+            evals += 1
+            extra = dict(folds=folds, n_spectra=nsp, skew=skew, keys=list(keys), rows=len(tab["df"]))
+            if not c.ok:
+                # a table the splitter cannot handle (a spectrum larger than a fold) is outside the judged domain when it
+                # is refused; what may not happen is a split that is returned and is not spectrum-closed
+                res.count("split_refused")
+                res.count("split_refused:" + c.sig)
+                continue
+            parts = [np.asarray(x) for x in c.value]
+            allidx = np.concatenate(parts) if parts else np.array([], dtype=int)
+            if sorted(allidx.tolist()) != list(range(len(tab["df"]))):
+                res.violate("split_not_a_partition", "", n_indices=len(allidx), distinct=len(set(allidx.tolist())), **extra)
+                continue
+            if len(parts) != folds:
+                res.violate("split_fold_count", "", got=len(parts), **extra)
+                continue
+            spec = tab["truth"]["spec"].values
+            fold_of = np.empty(len(spec), dtype=int)
+            for fi, ix in enumerate(parts):
+                fold_of[ix] = fi
+            seen = {}
+            bad = None
+            for s_, f_ in zip(spec.tolist(), fold_of.tolist()):
+                if seen.setdefault(s_, f_) != f_:
+                    bad = s_
+                    break
+            if bad is not None:
+                res.violate("spectrum_split_across_folds", "split", spectrum=int(bad),
+                            sizes=[int((fold_of[spec == bad] == k).sum()) for k in range(folds)], **extra)
+                continue
+            res.count("splits_checked")
+            if skew:
+                nt += 1
+    res["evals"] = evals
+    res["distinct_n"] = nt
+    res["nontrivial"] = nt > 0
+    return res
+
+
 def run_case(case):
+    if case["class"] == "split":
+        return run_split(case)
     rng = core.seed_seq(case["seed"], "C02", case["index"])
     res = Result(case)
     with core.scratch("c02") as d:
